@@ -402,11 +402,17 @@ theorem readlnH_no_undef (w : World) (f : OFile) : (readlnH w f).2 ≠ .undefine
   all_goals simp
 
 /-- a stream that is not open for update (read-only or write-only: every mode without `+`) never reaches the region
-    `C18.file_update_without_reposition`, whatever is called with whatever argument -/
-theorem step_oneway (w : World) (f : OFile) (hf : w.h.file = some f) (h1 : (f.wr && f.rd) = false) (op : Op) :
+    `C18.file_update_without_reposition`, whatever is called with whatever argument — PROVIDED the module's own `_r` flag is
+    not set on a stream that cannot read (`h2`; the mode strings `"wr"`, `"w\0r"`, `"ar"` violate it: there `read()` calls
+    `fread` on a write-only stream with output pending) -/
+theorem step_oneway (w : World) (f : OFile) (hf : w.h.file = some f) (h1 : (f.wr && f.rd) = false)
+    (h2 : f.rd = false → w.h.r = false) (op : Op) :
     (step w op).2 ≠ .undefinedSeq := by
-  have hbi : ∀ f0, w.h.file = some f0 → badInput f0 = false := by
-    intro f0 h0; rw [hf] at h0; injection h0 with h0; subst h0; simp [badInput, h1]
+  have hbi : ∀ f0, w.h.file = some f0 → w.h.r = true → badInput f0 = false := by
+    intro f0 h0 hr; rw [hf] at h0; injection h0 with h0; subst h0
+    cases hrd : f.rd with
+    | false => rw [h2 hrd] at hr; exact absurd hr (by simp)
+    | true => rw [hrd] at h1; simp at h1; simp [badInput, h1]
   have hbo : ∀ f0 d, w.h.file = some f0 → badOutput f0 d = false := by
     intro f0 d h0; rw [hf] at h0; injection h0 with h0; subst h0; simp [badOutput, h1]
   cases op with
@@ -414,18 +420,22 @@ theorem step_oneway (w : World) (f : OFile) (hf : w.h.file = some f) (h1 : (f.wr
     simp only [step]
     split
     · simp
-    · split
+    · rename_i hnr
+      have hr : w.h.r = true := by simpa using hnr
+      split
       · rename_i f0 l h0
-        rw [hbi f0 h0]
+        rw [hbi f0 h0 hr]
         simpa using readH_no_undef _ _ _ _
       · simp
   | readB n =>
     simp only [step]
     split
     · simp
-    · split
+    · rename_i hnr
+      have hr : w.h.r = true := by simpa using hnr
+      split
       · rename_i f0 l h0
-        rw [hbi f0 h0]
+        rw [hbi f0 h0 hr]
         simpa using readH_no_undef _ _ _ _
       · simp
   | writeB d =>
@@ -450,9 +460,11 @@ theorem step_oneway (w : World) (f : OFile) (hf : w.h.file = some f) (h1 : (f.wr
     simp only [step]
     split
     · simp
-    · split
+    · rename_i hnr
+      have hr : w.h.r = true := by simpa using hnr
+      split
       · rename_i f0 h0
-        rw [hbi f0 h0]
+        rw [hbi f0 h0 hr]
         simpa using readlnH_no_undef _ _
       · simp
   | seekSet n => simp only [step]; split <;> first | exact seekH_no_undef _ _ _ _ | simp
@@ -488,6 +500,10 @@ theorem step_oneway (w : World) (f : OFile) (hf : w.h.file = some f) (h1 : (f.wr
 
 theorem sstep_flags (m : Nat) (s : SStream) (op : SOp) :
     (sstep m s op).1.canRead = s.canRead ∧ (sstep m s op).1.canWrite = s.canWrite := by
+  cases op <;> simp only [sstep] <;> (repeat' split) <;> simp
+
+theorem sstep_may (m : Nat) (s : SStream) (op : SOp) :
+    (sstep m s op).1.mayRead = s.mayRead ∧ (sstep m s op).1.mayWrite = s.mayWrite := by
   cases op <;> simp only [sstep] <;> (repeat' split) <;> simp
 
 
